@@ -873,6 +873,43 @@ def r5b_renderer_indexes_stay_inside(ctx):
     ctx.floor("checked indexes in the diagnostics renderer", n, 2)
 
 
+def r5d_the_line_table_and_its_scan_agree(ctx):
+    """compute_line_starts records the start of the next line and continues its search from there: in every branch (LF, CRLF,
+    lone CR) the position pushed onto the table is the position the scan resumes at.  Resuming one byte earlier on CRLF finds
+    the LF again and records the same line start twice, so every diagnostic on a CRLF source is shown on line 2k-1."""
+    fn = ctx.lib.fns.get(DIAG + "compute_line_starts")
+    if fn is None:
+        return
+    ctx.touch(fn)
+    n = 0
+    off = [i for i, l in enumerate(fn.locals) if l["name"] == "offset"]
+    for c in fn.calls():
+        if not (c.callee or "").endswith("Vec::push") or len(c.args) < 2:
+            continue
+        pushed = sh(ne(fn.deep(c.args[1], 8))).replace(" ", "")
+        if pushed in ("0", "0_usize"):
+            continue
+        n += 1
+        resumed = None
+        b = c.target
+        for _ in range(6):
+            if b is None:
+                break
+            for st in fn.blocks[b]["s"]:
+                if st["lhs"]["l"] in off and not st["lhs"]["p"]:
+                    resumed = sh(ne(fn.deep_rvalue(st["rv"]))).replace(" ", "")
+            t = fn.blocks[b]["t"]
+            if resumed is not None or t["k"] not in ("goto", "assert", "drop"):
+                break
+            b = t["t"]
+        key = "line-table|push=resume|%s" % re.sub(r"memchr2\([^)]*\)", "idx", pushed)[:20]
+        if resumed == pushed:
+            ctx.ok(key + "#%d" % n, fn.where(c.block), "records %s and resumes there" % pushed)
+        else:
+            ctx.bad(key + "|resumes-at|%s" % re.sub(r"memchr2\([^)]*\)", "idx", str(resumed))[:20], fn.where(c.block), "compute_line_starts records a line start at `%s` but resumes its search at `%s`: the same line break is found again and the line start recorded twice (every diagnostic of a CRLF source is shown on the wrong line), or a line break is skipped" % (pushed, resumed))
+    ctx.floor("line starts recorded by compute_line_starts", n, 3)
+
+
 def r5c_renderer_slices_run_forward(ctx):
     """Every `src[a..b]` the renderer takes is cut between positions whose order the locator guarantees: line start (third
     component of line_col_in) <= a span's start <= min(span end, line end) <= line end (fourth component).  All four are
@@ -1175,7 +1212,7 @@ def r11_search_offsets_are_added_to_the_base_they_were_found_from(ctx):
     ctx.floor("search offsets turned into positions", n, 2)
 
 
-RULES = [("C07-R1", r1_cursor_discipline), ("C07-R2", r2_unchecked_reslicing), ("C07-R2b", r2b_byte_reads_in_bounds), ("C07-R2c", r2c_template_reads_in_bounds), ("C07-R5", r5_renderer_boundaries), ("C07-R5c", r5c_renderer_slices_run_forward), ("C07-R10c", r10c_a_diagnostic_costs_its_own_text), ("C07-R13", r13_type_pre_inference_runs_a_counted_number_of_rounds), ("C07-R14", r14_the_preflight_bounds_what_the_analyses_allocate),
+RULES = [("C07-R1", r1_cursor_discipline), ("C07-R2", r2_unchecked_reslicing), ("C07-R2b", r2b_byte_reads_in_bounds), ("C07-R2c", r2c_template_reads_in_bounds), ("C07-R5", r5_renderer_boundaries), ("C07-R5c", r5c_renderer_slices_run_forward), ("C07-R5d", r5d_the_line_table_and_its_scan_agree), ("C07-R10c", r10c_a_diagnostic_costs_its_own_text), ("C07-R13", r13_type_pre_inference_runs_a_counted_number_of_rounds), ("C07-R14", r14_the_preflight_bounds_what_the_analyses_allocate),
          ("C07-R3", r3_parser_position_free), ("C07-R3b", r3b_parser_spans_are_ordered), ("C07-R4", r4_recovery_progress), ("C07-R8", r8_local_ranges_cover_ids), ("C07-R9", r9_bitset_indexes_agree), ("C07-R5b", r5b_renderer_indexes_stay_inside), ("C07-R10", r10_front_end_memory_is_linear), ("C07-R12", r12_checker_indexes_follow_a_length_test), ("C07-R11", r11_search_offsets_are_added_to_the_base_they_were_found_from)]
 
 EXPLANATION = (
